@@ -169,7 +169,9 @@ class Ctx:
                 if os.path.exists(dst):
                     os.remove(dst)
                 os.symlink(os.path.abspath(src), dst)
-        args = ["timeout", str(timeout), "java", "-Xss512m", "-Xmx" + heap, "-XX:+UseParallelGC",
+        jtmp = os.path.join(d, "jtmp")      # TLC litters java.io.tmpdir with tlc-<n> directories: keep them inside the scratch dir
+        os.makedirs(jtmp, exist_ok=True)
+        args = ["timeout", str(timeout), "java", "-Xss512m", "-Xmx" + heap, "-XX:+UseParallelGC", "-Djava.io.tmpdir=" + jtmp,
                 "-cp", JAR, "tlc2.TLC", "-workers", str(workers), "-metadir", os.path.join(d, "meta"),
                 "-config", "run.cfg", "-seed", str(self.seed)]
         if simulate:
